@@ -135,10 +135,16 @@ def part_lattice(ctx, rng):
             for a, b in zip(inum, iden):
                 imp *= Fraction(a, b)
             exp.append(np.sqrt(float(w2)) * float(imp) / np.sqrt(wmax2))
-            w = g.get_weight([tf.constant([float(m)], dtype="float64") for m in chain])
-            got.append(float(np.asarray(w).reshape(-1)[0]))
+            try:
+                w = g.get_weight([tf.constant([float(m)], dtype="float64") for m in chain])
+                got.append(float(np.asarray(w).reshape(-1)[0]))
+            except Exception as e:
+                ctx.violation(key + ":get_weight:raise", {"chain": chain, "error": repr(e)})
+                got.append(float("nan"))
             nchains += 1
         exp, got = np.array(exp), np.array(got)
+        if np.all(np.isnan(got)):
+            continue
         if np.any(got > 1 + 1e-12) or np.any(got < 0) or not np.all(np.isfinite(got)):
             i = int(np.nanargmax(np.where(np.isfinite(got), got, np.inf)))
             ctx.violation(key + ":weight_above_one", {"chain": row["chains"][i][0], "weight": float(got[i])})
@@ -371,9 +377,13 @@ def part_weights(ctx, chosen, rng):
         if len(s["flat"]) != 1 or s["leaves"] < 3:
             continue
         m0, mi, lm = build_struct(s)
-        g = PhaseSpaceGenerator(m0, list(mi))
-        ms = g.generate_mass(K)
-        w = np.asarray(g.get_weight(ms))
+        try:
+            g = PhaseSpaceGenerator(m0, list(mi))
+            ms = g.generate_mass(K)
+            w = np.asarray(g.get_weight(ms))
+        except Exception as e:
+            ctx.violation(scen_key(s) + ":get_weight:raise", {"error": repr(e)})
+            continue
         nprop += K
         top = max(top, float(w.max()))
         ctx.count(K, distinct_key=("w", scen_key(s)))
@@ -393,13 +403,13 @@ def part_weights(ctx, chosen, rng):
     worst = 0.0
     for m0, ms in confs:
         for rep in range(2 if quick else 5):
-            g = PhaseSpaceGenerator(m0, ms)
             try:
+                g = PhaseSpaceGenerator(m0, ms)
                 g.cal_max_weight()
+                w = np.asarray(g.get_weight(g.generate_mass(K)))
             except Exception as e:
                 ctx.violation("cal_max_weight:raise:n=%d" % len(ms), {"m0": m0, "masses": ms, "error": repr(e)})
                 break
-            w = np.asarray(g.get_weight(g.generate_mass(K)))
             worst = max(worst, float(w.max()))
             ctx.count(K, distinct_key=("calmax", m0, len(ms)))
             if w.max() > 1 + 1e-12:
@@ -534,7 +544,13 @@ def part_flat(ctx, scen, rng, runner):
     for s, N in plan:
         key = scen_key(s)
         t0 = __import__("time").time()
-        m0, mi, lm, res, log = runner.generate(s, N, direct=True)
+        try:
+            m0, mi, lm, res, log = runner.generate(s, N, direct=True)
+        except tlc.MachineryError:
+            raise
+        except Exception as e:
+            ctx.violation(key + ":raise", {"N": N, "error": repr(e)})
+            continue
         ctx.log("flat sample %s N=%d generated in %.1fs" % (key, N, __import__("time").time() - t0))
         leaves = runner.physical(key, s, N, m0, mi, lm, res)
         ctx.count(N, distinct_key=("flat", key))
@@ -552,7 +568,13 @@ def part_flat(ctx, scen, rng, runner):
     for s in pick:
         key = scen_key(s)
         N = 30000
-        m0, mi, lm, res, log = runner.generate(s, N)
+        try:
+            m0, mi, lm, res, log = runner.generate(s, N)
+        except tlc.MachineryError:
+            raise
+        except Exception as e:
+            ctx.violation(key + ":raise", {"N": N, "error": repr(e)})
+            continue
         if runner.physical(key, s, N, m0, mi, lm, res) is None:
             continue
         ctx.count(N, distinct_key=("flat", key))
